@@ -15,7 +15,7 @@ claims = {
          "package initialiser (actTrace constant). All obligations discharged by SMT for all inputs."),
    note=TRUST + "ToSeccompAction also carries C03 (a filter kill must be KILL_PROCESS so that it ends the run). ASSUMED, not verified: go-seccomp-bpf Policy.Assemble compiles the policy correctly and x/net/bpf.Assemble is lossless (dependency code; the cBPF program itself is not interpreted yet); cmd/runprog config.cleanTrace is under contract (the allow and trace lists handed to the builder are disjoint, every traced name stays traced, nothing is allowed that was not asked for; keySetToSlice trusted: range over a map).",
    design_ref="DESIGN.md §4 C01"),
- "C02": dict(level="proof",
+ "C02": dict(level="other",
    text=("Proof part (all register values, all syscall numbers): runner/ptrace tracerHandler.Handle against a decode table taken from the system call signatures - for each of the 35 path-taking calls it decodes, exactly one policy query (two for rename/renameat/renameat2/linkat) is logged in ghost Q with the access class of the call "
          "(open/openat: write whenever O_ACCMODE != 0 or O_CREAT or O_TRUNC; openat2: write unless open_how could be read and says read-only) and the path kres(pid, dirfd, string at the path register), where the directory descriptor is read as the kernel reads it (C int: low 32 bits, sign-extended) from the right register; "
          "absPath/absPathAt choose the base exactly by the kernel rule (absolute: /, AT_FDCWD: cwd, else the descriptor's directory, unresolvable -> empty path); procfs references go to the procfs policy. Found and fixed: dirfd decoded from the whole 64-bit register; symlinkat decoded with mkdirat's argument positions. "
